@@ -462,7 +462,8 @@ func (s *session) read(bs *state.BlockState) *snap {
 	for n := 0; n <= nNames; n++ {
 		o, d, ok := name.VerifC01NameMap(ncs, []byte(nameStr(n)))
 		if ok {
-			sn.names[n] = [2]int{s.t.of(o), s.t.of(d)}
+			// AccountState.ID() pads the special accounts to address length (aergo.name as a sender)
+			sn.names[n] = [2]int{s.t.of(types.AddressOrigin(o)), s.t.of(types.AddressOrigin(d))}
 		}
 	}
 	return sn
